@@ -117,12 +117,32 @@ func (f *FragmentBuffer) Push(buf []byte) (isHandshake, isRetransmit bool, err e
 		return false, false, dtlserrors.ErrBufferTooSmall
 	}
 
-	return f.pushHandshakeFragments(recordLayerHeader, buf[headerSize:])
+	return f.pushHandshakeFragments(recordLayerHeader, buf[headerSize:], true)
+}
+
+// PushRetransmission classifies a handshake record that can only repeat what
+// was already received: fragments of assembled messages mark it as a
+// retransmission, fragments of any other message are ignored instead of stored.
+func (f *FragmentBuffer) PushRetransmission(buf []byte) (isHandshake, isRetransmit bool, err error) {
+	recordLayerHeader := recordlayer.Header{}
+	if err := recordLayerHeader.Unmarshal(buf); err != nil {
+		return false, false, err
+	}
+	if recordLayerHeader.ContentType != protocol.ContentTypeHandshake {
+		return false, false, nil
+	}
+	headerSize := recordLayerHeader.Size()
+	if len(buf) < headerSize {
+		return false, false, dtlserrors.ErrBufferTooSmall
+	}
+
+	return f.pushHandshakeFragments(recordLayerHeader, buf[headerSize:], false)
 }
 
 func (f *FragmentBuffer) pushHandshakeFragments(
 	recordLayerHeader recordlayer.Header,
 	buf []byte,
+	storeNew bool,
 ) (isHandshake, isRetransmit bool, err error) {
 	for len(buf) != 0 {
 		frag := new(fragment)
@@ -139,6 +159,12 @@ func (f *FragmentBuffer) pushHandshakeFragments(
 			if f.isRetransmissionOf(frag.handshakeHeader) {
 				isRetransmit = true
 			}
+			buf = buf[end:]
+
+			continue
+		}
+
+		if !storeNew {
 			buf = buf[end:]
 
 			continue
